@@ -20,6 +20,8 @@ Unconnected Send wrapper and Multiple Service Packet, the stream loop `serve`, r
   work quadratic (each level re-parses everything inside it) -- the linear bound holds only without nesting
 * state protection: `tags_change_only_by_write` (stream), `frame_change_is_write`, `bad_frame_isolated`,
   `request_change_is_write`, `hostile_stream_no_effect`, `later_session_unaffected`
+* datagrams (UDP loop `serveDatagrams`): `datagram_independent`, `hostile_datagram_invisible`,
+  `datagram_trailing_bytes_ignored`, `datagram_incomplete_dropped`, `datagram_change_is_write`
 * replies: `decoded_frame_is_answered`
 * the no-progress detection of the parser engine: `engine_no_progress_stops`
 
@@ -339,6 +341,75 @@ theorem later_session_unaffected (fate fate' : Nat → Bool) (d : Dev) (bs next 
     serve fate' (serve fate d bs).1 next = serve fate' d next := by
   rw [hostile_stream_no_effect fate d bs hbad]
 
+/-! ### datagrams (the UDP loop): a datagram is handled on its own -/
+
+/-- **Bytes behind the datagram's first complete frame affect nothing** (not this datagram's handling, and --
+there being no carried-over input in `serveDatagrams` -- no other datagram's). -/
+theorem datagram_trailing_bytes_ignored (d : Dev) (f x pl : Bytes) (hd : Header)
+    (hf : splitFrame f = some (hd, pl, [])) : serveDatagram d (f ++ x) = serveDatagram d f := by
+  unfold serveDatagram
+  rw [splitFrame_append x hf, hf]
+
+/-- **A datagram that does not hold a complete frame is dropped without effect.** -/
+theorem datagram_incomplete_dropped (d : Dev) (dg : Bytes) (h : splitFrame dg = none) :
+    serveDatagram d dg = (d, .dropped) := by
+  unfold serveDatagram; rw [h]
+
+/-- a datagram changes a tag only if its first frame is a well-formed request with an accepted write -/
+theorem datagram_change_is_write (d : Dev) (dg : Bytes) (hc : (serveDatagram d dg).1 ≠ d) :
+    ∃ hd pl rest dec, splitFrame dg = some (hd, pl, rest) ∧ decodeFrame d hd pl = some dec
+      ∧ AcceptedWrite d dec.req := by
+  unfold serveDatagram at hc
+  cases hs : splitFrame dg with
+  | none => simp [hs] at hc
+  | some q =>
+    obtain ⟨hd, pl, rest⟩ := q
+    simp only [hs] at hc
+    obtain ⟨dec, h1, h2⟩ := frame_change_is_write d hd pl hc
+    exact ⟨hd, pl, rest, dec, rfl, h1, h2⟩
+
+theorem serveDatagrams_append (d : Dev) (a b : List Bytes) :
+    serveDatagrams d (a ++ b) =
+      ((serveDatagrams (serveDatagrams d a).1 b).1, (serveDatagrams d a).2 ++ (serveDatagrams (serveDatagrams d a).1 b).2) := by
+  induction a generalizing d with
+  | nil => simp [serveDatagrams]
+  | cons x t ih =>
+    simp only [List.cons_append, serveDatagrams]
+    rw [ih]
+
+/-- **The handling of a datagram does not depend on the bytes of any other datagram**, except through tags
+written by well-formed accepted writes: take any sequence of datagrams `a ++ x :: b` from any peers.  Either `x`
+holds a well-formed request with a write the device accepts in the state `x` arrives in, or every other datagram
+is handled exactly -- same replies, same effect -- as if `x` had never been sent: the run is the run of
+`a ++ b` with `x`'s own outcome put in its place. -/
+theorem datagram_independent (d : Dev) (a b : List Bytes) (x : Bytes) :
+    (∃ hd pl rest dec, splitFrame x = some (hd, pl, rest)
+        ∧ decodeFrame (serveDatagrams d a).1 hd pl = some dec ∧ AcceptedWrite (serveDatagrams d a).1 dec.req)
+    ∨ (serveDatagrams d (a ++ x :: b) =
+        ((serveDatagrams d (a ++ b)).1,
+         (serveDatagrams d a).2 ++ (serveDatagram (serveDatagrams d a).1 x).2 :: (serveDatagrams (serveDatagrams d a).1 b).2)
+       ∧ (serveDatagrams d (a ++ b)).2 = (serveDatagrams d a).2 ++ (serveDatagrams (serveDatagrams d a).1 b).2) := by
+  by_cases hx : (serveDatagram (serveDatagrams d a).1 x).1 = (serveDatagrams d a).1
+  · right
+    rw [serveDatagrams_append d a (x :: b), serveDatagrams_append d a b]
+    simp only [serveDatagrams, hx, and_self]
+  · left
+    exact datagram_change_is_write _ x hx
+
+/-- in particular a hostile datagram (no well-formed request in it, whatever the state) is invisible to all
+others: it cannot corrupt, delay or suppress a valid request of another peer -/
+theorem hostile_datagram_invisible (d : Dev) (a b : List Bytes) (x : Bytes)
+    (hbad : ∀ dk hd pl rest, splitFrame x = some (hd, pl, rest) → decodeFrame dk hd pl = none) :
+    (serveDatagrams d (a ++ x :: b)).1 = (serveDatagrams d (a ++ b)).1
+    ∧ (serveDatagrams d (a ++ x :: b)).2 =
+        (serveDatagrams d a).2 ++ (serveDatagram (serveDatagrams d a).1 x).2 :: (serveDatagrams (serveDatagrams d a).1 b).2
+    ∧ (serveDatagrams d (a ++ b)).2 = (serveDatagrams d a).2 ++ (serveDatagrams (serveDatagrams d a).1 b).2 := by
+  rcases datagram_independent d a b x with ⟨hd, pl, rest, dec, h1, h2, _⟩ | ⟨h1, h2⟩
+  · rw [hbad _ hd pl rest h1] at h2
+    exact absurd h2 (by simp)
+  · rw [h1]
+    exact ⟨rfl, rfl, h2⟩
+
 /-! ### replies -/
 
 /-- **A well-formed request is always answered** (one reply frame; the session goes on unless the reply could
@@ -408,6 +479,13 @@ example : ∀ off hd pl rest (dk : Dev), splitFrame ((writeFrame.take 20).drop o
   have h2 : ((writeFrame.take 20).drop off).length ≤ 20 := by
     simp only [List.length_drop, List.length_take]; omega
   omega
+
+/-- datagrams: a hostile one (`badFrame` + trailing bytes) between a truncated one and the valid write of another
+peer: the write is executed and answered exactly as when it is sent alone -/
+example : (serveDatagrams demoDev [writeFrame.take 50, badFrame ++ [1, 2, 3], writeFrame ++ [9, 9]]).2
+      = [.dropped, .frame .other, (serveDatagram demoDev writeFrame).2]
+    ∧ (serveDatagrams demoDev [writeFrame.take 50, badFrame ++ [1, 2, 3], writeFrame ++ [9, 9]]).1
+      = (serveDatagram demoDev writeFrame).1 := by decide +kernel
 
 /-- a truncated frame: nothing is processed -/
 example : serve (fun _ => true) demoDev (writeFrame.take 67) = (demoDev, []) := by decide +kernel
